@@ -108,3 +108,82 @@ func TestC10RealClock(t *testing.T) {
 		}
 	}
 }
+
+// slowClock is the production clock on which arming a timer takes a while (the calling goroutine
+// is descheduled for 30 ms right after time.AfterFunc / Reset returned): time passes inside one
+// operation of the collector, which a clock that only moves between operations never shows.
+type slowClock struct{}
+
+type slowTimer struct{ t *time.Timer }
+
+func (slowClock) Now() time.Time { return time.Now() }
+func (slowClock) AfterFunc(d time.Duration, f func()) collector.VerifTimer {
+	t := time.AfterFunc(d, f)
+	time.Sleep(30 * time.Millisecond)
+	return slowTimer{t}
+}
+func (s slowTimer) Stop() bool { return s.t.Stop() }
+func (s slowTimer) Reset(d time.Duration) bool {
+	r := s.t.Reset(d)
+	time.Sleep(30 * time.Millisecond)
+	return r
+}
+
+// runSlowArming: lifetime 1 s on the slow-arming clock. The template is sent (and, with Refresh,
+// sent again 300 ms later); 400 ms after its last transmission it must still be usable, and once
+// its lifetime is over it must go: the check polls for up to 8 s, so a late timer on a busy machine
+// is not a failure, a template that is never discarded is.
+func runSlowArming(refresh bool) *ev.Failure {
+	col := glue.NewCol("udp", collector.DecodingModeStrict, slowClock{}, 1)
+	fields := variants()[0]
+	h := ref.Header{Domain: 1, ExportTime: 1700000000}
+	tpl := ref.TemplateMessage(h, gen.Wire(256, fields))
+	data := ref.EncodeMessage(h, 256, ref.EncodeDataRecord(nil, gen.View(fields), []ref.Value{{B: []byte{10, 0, 0, 1}}}))
+	last := time.Now()
+	if dr := col.Decode(tpl, "10.1.2.3:4739"); dr.Err != nil {
+		return ev.Failf("slow arming: valid template rejected: %v", dr.Err)
+	}
+	if refresh {
+		time.Sleep(300 * time.Millisecond)
+		last = time.Now()
+		if dr := col.Decode(tpl, "10.1.2.3:4739"); dr.Err != nil {
+			return ev.Failf("slow arming: refresh rejected: %v", dr.Err)
+		}
+	}
+	time.Sleep(time.Until(last.Add(400 * time.Millisecond)))
+	if time.Since(last) < 800*time.Millisecond {
+		if dr := col.Decode(data, "10.1.2.3:4739"); dr.Err != nil {
+			return ev.Failf("slow arming: data rejected %v after the last transmission of its template (lifetime 1 s): %v", time.Since(last).Round(10*time.Millisecond), dr.Err)
+		}
+	}
+	time.Sleep(time.Until(last.Add(1300 * time.Millisecond)))
+	for end := last.Add(9 * time.Second); ; time.Sleep(50 * time.Millisecond) {
+		dr := col.Decode(data, "10.1.2.3:4739")
+		if dr.Err != nil && len(col.StoredTemplates()) == 0 {
+			return nil
+		}
+		if time.Now().After(end) {
+			return ev.Failf("slow arming (30 ms pass inside the call that arms the expiry timer; refresh: %v): %v after the last transmission of the template (lifetime 1 s) data is still accepted / %d templates are stored: the template outlives its lifetime", refresh, time.Since(last).Round(10*time.Millisecond), len(col.StoredTemplates()))
+		}
+	}
+}
+
+func TestC10SlowArming(t *testing.T) {
+	if ev.Shard() > 1 {
+		return
+	}
+	var wg sync.WaitGroup
+	res := make([]*ev.Failure, 2)
+	for k, refresh := range []bool{false, true} {
+		wg.Add(1)
+		go func() { defer wg.Done(); res[k] = runSlowArming(refresh) }()
+	}
+	wg.Wait()
+	for k, refresh := range []bool{false, true} {
+		rec.Case(ev.Hash([]any{"slow_arming", refresh}), true, "time_passes_inside_an_operation")
+		if f := res[k]; f != nil {
+			rec.Violation("slow_arming", refresh, f.Msg)
+			t.Fatalf("%s", f.Msg)
+		}
+	}
+}
